@@ -188,10 +188,9 @@ fn case_main(prop: &'static PropDef, tier: Tier, fam: usize, idx: u64, verbose: 
     // hang watchdog for the single case: a helper thread exits the process with status 4
     let limit = worker::hang_limit_ns();
     std::thread::spawn(move || {
-        let t0 = std::time::Instant::now();
         loop {
             std::thread::sleep(std::time::Duration::from_millis(200));
-            if t0.elapsed().as_nanos() as u64 > limit * 3 {
+            if worker::process_cpu_ns() > limit + 2_000_000_000 {
                 println!("VK\thang");
                 unsafe { libc::_exit(4) };
             }
